@@ -33,8 +33,12 @@ CPU = 10.0
 def declared_symbols(plain_list):
     out = set()
     for c in plain_list:
-        if isinstance(c, list) and len(c) >= 2 and isinstance(c[0], str) and isinstance(c[1], str) and c[0] in (
-                'declare-const', 'declare-fun', 'define-fun', 'declare-sort', 'define-sort', 'declare-datatype'):
+        # only well-formed declarations count (a reduced form may hold a torso
+        # such as (declare-const x), which declares nothing)
+        arity = {'declare-const': 3, 'declare-fun': 4, 'define-fun': 5, 'declare-sort': 3, 'define-sort': 4,
+                 'declare-datatype': 3}
+        if isinstance(c, list) and len(c) >= 2 and isinstance(c[0], str) and isinstance(c[1], str) \
+                and arity.get(c[0]) == len(c):
             out.add(c[1])
     return out
 
@@ -222,6 +226,12 @@ def add_traps(draw, s):
         extra.append(['declare-const', plain_strs[0] + '_prefix', 'String'])
         extra.append(['assert', ['str.contains', plain_strs[0], '"q"']])
         traps.add('prefix-name-taken')
+    if draw(st.booleans()):
+        # incremental benchmarks repeat (set-info :status ...) before each check-sat
+        extra.append(['set-info', ':status', 'sat'])
+        if draw(st.booleans()):
+            extra.append(['set-logic', 'ALL'])
+        traps.add('late-set-info')
     cmds[pos:pos] = extra
     for n in s.consts:
         if n.endswith('_prefix') or n.endswith('_suffix') or n.startswith('_') or n.endswith('__fresh') or n.startswith('|'):
